@@ -246,10 +246,17 @@ func refsOf(e *engine, id wasm.ModuleID) int       { return e.compiledRefs[id] }
 //@   ensures[earlier-operations-kept] len(c.result.Operations) >= old(len(c.result.Operations)) && forall i int :: 0 <= i && i < old(len(c.result.Operations)) ==> c.result.Operations[i].Kind == old[operationKind](c.result.Operations[i].Kind)
 //@   modifies c.result.Operations, c.result.IROperationSourceOffsetsInWasmBinary, elems(c.result.Operations), elems(c.result.IROperationSourceOffsetsInWasmBinary)
 
+// indexCoupled: the opcodes whose index immediate applyToStack decodes (and skips) itself.
+func indexCoupled(op wasm.Opcode) bool {
+	return op == wasm.OpcodeCall || op == wasm.OpcodeCallIndirect || op == wasm.OpcodeLocalGet || op == wasm.OpcodeLocalSet ||
+		op == wasm.OpcodeLocalTee || op == wasm.OpcodeGlobalGet || op == wasm.OpcodeGlobalSet ||
+		op == wasm.OpcodeTailCallReturnCall || op == wasm.OpcodeTailCallReturnCallIndirect
+}
+
 // (operand type bookkeeping of the compiler: assumed to touch only the type stack and the position)
 //@ func (c *compiler) applyToStack(opcode wasm.Opcode) (index uint32, err error)
 //@   trusted
-//@   ensures opcode == wasm.OpcodeMiscPrefix ==> c.pc == old(c.pc)
+//@   ensures !indexCoupled(opcode) ==> c.pc == old(c.pc)
 //@   modifies c.stack, c.stackLenInUint64, c.pc, elems(c.stack)
 //@ func (c *compiler) getFrameDropRange(frame *controlFrame, isEnd bool) inclusiveRange
 //@   trusted
